@@ -61,7 +61,7 @@ theorem slhc_cons (E : Env) (f : Form) (b0 : Nat) (rest : Bytes) (acc : Nat) :
       else slhcLoop E f (rest.drop ((decodeFirst b0 rest).2 - 1)) acc := by
   conv => lhs; unfold slhcLoop
 
-/-- one iteration of `singleLineHashCount`'s loop that does not bail out: the head of the
+/-- one iteration of `singleLineHashCountOld`'s loop that does not bail out: the head of the
 string is a printable good unit, and after a quote or a backslash the accumulator exceeds
 the run of hashes that follows -/
 theorem slhc_step {E : Env} {f : Form} {b0 : Nat} {rest : Bytes} {acc n : Nat}
@@ -335,55 +335,57 @@ theorem quoteWith_hashes_eq (slhc : Env → Form → Bytes → Nat) {E : Env} (f
   have hgt : decide (h > 0) = true := by simp; omega
   simp [quoteWith, hashCountWith, appendEscaped, hml, ha, hs, hgt]
 
+theorem quoteOld_hashes_eq {E : Env} (f : Form) (s : Bytes) (hml : f.effMultiline s = false)
+    (ha : f.autoHash = true) (h : Nat) (hs : singleLineHashCountOld E f s = h) (hpos : 1 ≤ h) :
+    quoteOld E f s = hashes h ++ [f.quote] ++ s ++ [f.quote] ++ hashes h :=
+  quoteWith_hashes_eq singleLineHashCountOld f s hml ha h hs hpos
+
 theorem quote_hashes_eq {E : Env} (f : Form) (s : Bytes) (hml : f.effMultiline s = false)
     (ha : f.autoHash = true) (h : Nat) (hs : singleLineHashCount E f s = h) (hpos : 1 ≤ h) :
     quote E f s = hashes h ++ [f.quote] ++ s ++ [f.quote] ++ hashes h :=
   quoteWith_hashes_eq singleLineHashCount f s hml ha h hs hpos
 
-theorem quoteFixed_hashes_eq {E : Env} (f : Form) (s : Bytes) (hml : f.effMultiline s = false)
-    (ha : f.autoHash = true) (h : Nat) (hs : singleLineHashCountFixed E f s = h) (hpos : 1 ≤ h) :
-    quoteFixed E f s = hashes h ++ [f.quote] ++ s ++ [f.quote] ++ hashes h :=
-  quoteWith_hashes_eq singleLineHashCountFixed f s hml ha h hs hpos
-
 /-! ### C: a positive count comes from the loop -/
 
-theorem slhc_pos_imp {E : Env} (f : Form) (s : Bytes) (h : Nat) (hpos : 1 ≤ h)
-    (hs : singleLineHashCount E f s = h) : slhcLoop E f s 1 = some h := by
-  unfold singleLineHashCount at hs
+theorem slhcOld_pos_imp {E : Env} (f : Form) (s : Bytes) (h : Nat) (hpos : 1 ≤ h)
+    (hs : singleLineHashCountOld E f s = h) : slhcLoop E f s 1 = some h := by
+  unfold singleLineHashCountOld at hs
   split at hs
   · omega
   · split at hs
     · next n hn => rw [hn, hs]
     · omega
 
-theorem slhcFixed_pos_imp {E : Env} (f : Form) (s : Bytes) (h : Nat)
-    (hs : singleLineHashCountFixed E f s = h) (hpos : 1 ≤ h) :
+theorem slhc_pos_imp {E : Env} (f : Form) (s : Bytes) (h : Nat)
+    (hs : singleLineHashCount E f s = h) (hpos : 1 ≤ h) :
     slhcLoop E f s 1 = some h ∧ startsTwoQuotes f.quote s = false := by
-  unfold singleLineHashCountFixed at hs
+  unfold singleLineHashCount at hs
   split at hs
-  · next a b rest =>
-    split at hs
-    · omega
-    · next hne =>
-      refine ⟨slhc_pos_imp f _ h hpos hs, ?_⟩
-      have : (a == f.quote && b == f.quote) = false := by simpa using hne
-      simp [startsTwoQuotes, this]
-  · next hno =>
-    refine ⟨slhc_pos_imp f _ h hpos hs, ?_⟩
-    unfold startsTwoQuotes
-    split
-    · next a b rest => exact absurd rfl (hno a b rest)
-    · rfl
+  · omega
+  split at hs
+  · omega
+  · next hany htwo =>
+    constructor
+    · split at hs
+      · next n hn => rw [hn, hs]
+      · omega
+    · have h2 : startsWithTwo f.quote s = false := by simpa using htwo
+      unfold startsTwoQuotes
+      split
+      · next a b rest =>
+        have : (a == f.quote && b == f.quote) = false := by simpa [startsWithTwo] using h2
+        simp [this]
+      · rfl
 
-/-! ### D: the defect of the code as it is -/
+/-! ### D: the defect of the OLD code (before /repo a2b8800) -/
 
 /-- `"\"\"x"` quoted with `WithOptionalHashes` is `#"""x"#`, which does not read back -/
-theorem hashes_witness_fails (E : Env) (hp : E.isPrint 0x22 = true) (hx : E.isPrint 0x78 = true) :
-    unquote (quote E stringForm.withOptionalHashes [0x22, 0x22, 0x78]) = .error .missingOpeningNewline := by
-  have hc : singleLineHashCount E stringForm.withOptionalHashes [0x22, 0x22, 0x78] = 1 := by
-    simp [singleLineHashCount, slhc_cons, slhcLoop, decodeFirst, Form.isPrint, stringForm,
+theorem hashes_witness_fails_old (E : Env) (hp : E.isPrint 0x22 = true) (hx : E.isPrint 0x78 = true) :
+    unquote (quoteOld E stringForm.withOptionalHashes [0x22, 0x22, 0x78]) = .error .missingOpeningNewline := by
+  have hc : singleLineHashCountOld E stringForm.withOptionalHashes [0x22, 0x22, 0x78] = 1 := by
+    simp [singleLineHashCountOld, slhc_cons, slhcLoop, decodeFirst, Form.isPrint, stringForm,
       Form.withOptionalHashes, hp, hx, hashRun_cons_ne]
-  have hqv := quote_hashes_eq (E := E) stringForm.withOptionalHashes [0x22, 0x22, 0x78]
+  have hqv := quoteOld_hashes_eq (E := E) stringForm.withOptionalHashes [0x22, 0x22, 0x78]
     (by simp [Form.effMultiline, stringForm, Form.withOptionalHashes]) rfl 1 hc (Nat.le_refl _)
   rw [hqv]
   rfl
